@@ -368,7 +368,10 @@ impl<'a> MachineAfterRegWrite<'a> {
                 machine.state = State::ErrorStopped;
             } else if machine.last_bus_read == 0x01 {
                 warn!("Read 0x01 instruction. Halting.");
-                machine.state = State::Stopped;
+                // An error stop raised by the register write of this very clock edge wins
+                if machine.state == State::Running {
+                    machine.state = State::Stopped;
+                }
             } else if machine.last_bus_read == 0b0010_1100 {
                 // We need to clear some MISR flags once the program returns from interrupt
                 trace!("RETI detected. Removing MISR flags");
